@@ -12,7 +12,10 @@
 
 #define MAXN 256
 #define MAXL 4
-struct el { int val; int id; struct cstl_dlist_node n; };
+/* two link members: list objects are configured with different node offsets (odd lists use n, even lists n2), so
+ * an operation that moves contents between list objects has to carry the configuration along */
+struct el { int val; int id; struct cstl_dlist_node n; long pad; struct cstl_dlist_node n2; };
+#define OFF_OF(j) ((j) % 2 ? offsetof(struct el, n) : offsetof(struct el, n2))
 static struct el pool[MAXN + 1];
 static int N, NL, PROBES = 1, MAXV;
 static struct cstl_dlist L[MAXL + 1];
@@ -27,12 +30,13 @@ static int id_of_el(const void *e)
     if (d % sizeof(struct el)) return -999;
     return (int)(d / sizeof(struct el));
 }
-static int enc(const struct cstl_dlist_node *p)
+/* a link found while walking list l: elements hang on the member list l is configured with */
+static int enc(const struct cstl_dlist_node *p, int l)
 {
     int j, id;
     if (!p) { bad = 1; return 0; }
     for (j = 1; j <= NL; j++) if (p == &L[j].h) return -j;
-    id = id_of_el((const char *)p - offsetof(struct el, n));
+    id = id_of_el((const char *)p - L[l].off);
     if (id <= 0) { bad = 1; return 0; }
     return id;
 }
@@ -62,11 +66,14 @@ static void drv_reset(void)
 {
     int i;
 #ifdef USE_INITIALIZER
-    for (i = 1; i <= NL; i++) { struct cstl_dlist x = CSTL_DLIST_INITIALIZER(L[i], struct el, n); L[i] = x; }
+    for (i = 1; i <= NL; i++) {
+        struct cstl_dlist x = CSTL_DLIST_INITIALIZER(L[i], struct el, n), y = CSTL_DLIST_INITIALIZER(L[i], struct el, n2);
+        L[i] = i % 2 ? x : y;
+    }
 #else
-    for (i = 1; i <= NL; i++) cstl_dlist_init(&L[i], offsetof(struct el, n));
+    for (i = 1; i <= NL; i++) cstl_dlist_init(&L[i], OFF_OF(i));
 #endif
-    for (i = 0; i <= N; i++) memset(&pool[i].n, 0, sizeof pool[i].n);
+    for (i = 0; i <= N; i++) { memset(&pool[i].n, 0, sizeof pool[i].n); memset(&pool[i].n2, 0, sizeof pool[i].n2); }
 }
 static void drv_aborted(void) { }
 
@@ -82,7 +89,7 @@ static void rescan(void)
         const struct cstl_dlist_node *p = L[j].h.n;
         slen[j] = 0;
         for (c = 0; p != &L[j].h; c++) {
-            int id = enc(p);
+            int id = enc(p, j);
             if (bad || id <= 0 || where[id] || c > N) { bad = 1; break; }
             where[id] = j; seqs[j][slen[j]++] = id;
             p = p->n;
@@ -99,7 +106,7 @@ static int visit_cb(void *e, void *p)
     ev_add("%d", id);
     if (cb_erase && id > 0) {
         cstl_dlist_erase(&L[cb_list], e);
-        memset(&pool[id].n, 0xA5, sizeof pool[id].n);
+        memset(&pool[id].n, 0xA5, sizeof pool[id].n); memset(&pool[id].n2, 0xA5, sizeof pool[id].n2);
     }
     return (cb_stop && cb_count == cb_stop) ? e_stopval(cb_stop) : 0;
 }
@@ -108,7 +115,7 @@ static void clear_cb(void *e, void *p)
     int id = id_of_el(e);
     (void)p;
     ev_add("%d", id);
-    if (id > 0) memset(&pool[id].n, 0xA5, sizeof pool[id].n);   /* the element is the callee's now */
+    if (id > 0) { memset(&pool[id].n, 0xA5, sizeof pool[id].n); memset(&pool[id].n2, 0xA5, sizeof pool[id].n2); }   /* the element is the callee's now */
 }
 
 static void drv_apply(const vop_t *op, jb_t *res)
@@ -170,20 +177,23 @@ static void drv_opjson(const vop_t *op, jb_t *b)
 }
 static int drv_terminal(const vop_t *op) { (void)op; return 0; }
 
+#define NODE_OF(i) ((const struct cstl_dlist_node *)((const char *)&pool[i] + L[where[i]].off))
 static void drv_ser(jb_t *b)
 {
     int j, i;
     rescan();
     jb_puts(b, "{\"hn\":[");
-    for (j = 1; j <= NL; j++) jb_printf(b, "%s%d", j > 1 ? "," : "", enc(L[j].h.n));
+    for (j = 1; j <= NL; j++) jb_printf(b, "%s%d", j > 1 ? "," : "", enc(L[j].h.n, j));
     jb_puts(b, "],\"hp\":[");
-    for (j = 1; j <= NL; j++) jb_printf(b, "%s%d", j > 1 ? "," : "", enc(L[j].h.p));
+    for (j = 1; j <= NL; j++) jb_printf(b, "%s%d", j > 1 ? "," : "", enc(L[j].h.p, j));
     jb_puts(b, "],\"size\":[");
     for (j = 1; j <= NL; j++) { if (j > 1) jb_puts(b, ","); jb_size(b, L[j].size); }
     jb_puts(b, "],\"nx\":[");
-    for (i = 1; i <= N; i++) jb_printf(b, "%s%d", i > 1 ? "," : "", where[i] ? enc(pool[i].n.n) : 0);
+    for (i = 1; i <= N; i++) jb_printf(b, "%s%d", i > 1 ? "," : "", where[i] ? enc(NODE_OF(i)->n, where[i]) : 0);
     jb_puts(b, "],\"pv\":[");
-    for (i = 1; i <= N; i++) jb_printf(b, "%s%d", i > 1 ? "," : "", where[i] ? enc(pool[i].n.p) : 0);
+    for (i = 1; i <= N; i++) jb_printf(b, "%s%d", i > 1 ? "," : "", where[i] ? enc(NODE_OF(i)->p, where[i]) : 0);
+    jb_puts(b, "],\"offk\":[");      /* which link member each list object is configured with */
+    for (j = 1; j <= NL; j++) jb_printf(b, "%s%d", j > 1 ? "," : "", L[j].off == offsetof(struct el, n) ? 1 : L[j].off == offsetof(struct el, n2) ? 2 : -1);
     jb_printf(b, "],\"bad\":%s}", bad ? "true" : "false");
 }
 
@@ -202,7 +212,7 @@ static int drv_enum(vop_t *ops, int max)
             ADD(5, l, seqs[l][i], 0, 0);
         }
         ADD(6, l, 0, 0, 0); ADD(7, l, 0, 0, 0); ADD(12, l, 0, 0, 0);
-        for (m = 1; m <= NL; m++) if (m != l) ADD(8, l, m, 0, 0);
+        for (m = 1; m <= NL; m++) if (m != l && L[m].off == L[l].off) ADD(8, l, m, 0, 0);   /* concat: like-configured lists only */
         for (m = l; m <= NL; m++) ADD(9, l, m, 0, 0);      /* m == l: a list swapped with itself */
         for (rv = 0; rv < 2; rv++) for (st = 0; st <= slen[l]; st++) {
             ADD(11, l, rv, st, 1);
@@ -230,7 +240,7 @@ static int drv_random(unsigned long (*rnd)(void), vop_t *op)
     else if (r < 62 && slen[l]) { op->k = 5; op->a[0] = l; op->a[1] = seqs[l][rnd() % (unsigned)slen[l]]; }
     else if (r < 68) { op->k = 6; op->a[0] = l; }
     else if (r < 74) { op->k = 7; op->a[0] = l; }
-    else if (r < 79 && m != l) { op->k = 8; op->a[0] = l; op->a[1] = m; }
+    else if (r < 79 && m != l && L[m].off == L[l].off) { op->k = 8; op->a[0] = l; op->a[1] = m; }
     else if (r < 84 ) { op->k = 9; op->a[0] = l < m ? l : m; op->a[1] = l < m ? m : l; }
     else if (r < 89) { op->k = 10; op->a[0] = l; op->a[1] = (int)(rnd() % (unsigned)(MAXV + 1)); op->a[2] = (int)(rnd() & 1); }
     else if (r < 95) { op->k = 11; op->a[0] = l; op->a[1] = (int)(rnd() & 1); op->a[2] = (rnd() & 1) ? 0 : (int)(rnd() % (unsigned)(slen[l] + 1)); op->a[3] = (rnd() % 4 == 0); }
